@@ -323,6 +323,95 @@ theorem step_not_past_todo (fuel : Nat) (T : Int) (s : St) (ms : Int) (s' : St)
   have := hle hlt
   omega
 
+/-- the deadline object of a `Step(T)`, `T ≥ 0`, never promises more than `T` -/
+def DBound (T : Int) : Deadline → Prop
+  | .unlimited _ => T < 0
+  | .zero _ => T = 0
+  | .limited n dl => 0 < T ∧ dl - n ≤ T * nsPerMs
+
+theorem DBound_make (T now : Int) : DBound T (Deadline.make T now) := by
+  unfold Deadline.make
+  split
+  · assumption
+  · split
+    · assumption
+    · exact ⟨by omega, by omega⟩
+
+theorem DBound_tick {T : Int} {d : Deadline} (h : DBound T d) (n' : Int) (hn : d.now ≤ n') : DBound T (d.tick n') := by
+  cases d with
+  | unlimited n => exact h
+  | zero n => exact h
+  | limited n dl =>
+    simp only [Deadline.tick, DBound, Deadline.now] at *
+    exact ⟨h.1, by omega⟩
+
+theorem DBound_remaining {T : Int} {d : Deadline} (h : DBound T d) (hT : 0 ≤ T) : d.remaining ≤ T ∧ 0 ≤ d.remaining := by
+  cases d with
+  | unlimited n => simp only [DBound] at h; omega
+  | zero n => simp only [DBound] at h; simp only [Deadline.remaining]; omega
+  | limited n dl =>
+    simp only [DBound] at h
+    show (if toMs (dl - n) < 0 then 0 else toMs (dl - n)) ≤ T ∧ 0 ≤ (if toMs (dl - n) < 0 then 0 else toMs (dl - n))
+    split
+    · omega
+    · rename_i hge
+      refine ⟨?_, by omega⟩
+      by_cases hx : 0 ≤ dl - n
+      · have := toMs_mul_le hx
+        unfold nsPerMs at *
+        omega
+      · have : toMs (dl - n) ≤ 0 := by
+          unfold toMs nsPerMs
+          have h1 : (dl - n) = -(n - dl) := by omega
+          rw [h1, Int.neg_tdiv]
+          have := Int.tdiv_nonneg (a := n - dl) (b := 1000000) (by omega) (by decide)
+          omega
+        omega
+
+/-- "Driver::Step is bounded by T from above in the same way": for `T ≥ 0` the timeout handed to the
+socket wait after the due tasks ran is within `[0, T]`, whatever the tasks did and however long they
+took. -/
+theorem step_bounded (fuel : Nat) (T : Int) (hT : 0 ≤ T) (d : Deadline) (s : St) (hd : d.now = s.now)
+    (hb : DBound T d) (ms : Int) (s' : St) (h : stepTodos fuel d s = (ms, s')) : 0 ≤ ms ∧ ms ≤ T := by
+  induction fuel generalizing d s with
+  | zero => simp only [stepTodos] at h; cases h; exact ⟨Int.le_refl _, hT⟩
+  | succ fuel ih =>
+    unfold stepTodos at h
+    cases ht : s.todos with
+    | nil => rw [ht] at h; cases h; have := DBound_remaining hb hT; exact ⟨this.2, this.1⟩
+    | cons front rest0 =>
+      rw [ht] at h
+      simp only at h
+      split at h
+      · rename_i hnot
+        cases h
+        have hr := DBound_remaining hb hT
+        have hu : 0 ≤ front.when - d.now := by omega
+        have h1 := toMs_nonneg hu
+        unfold minDuration
+        split
+        · omega
+        · have hmin : min (toMs (front.when - d.now)) d.remaining ≤ d.remaining := Int.min_le_right _ _
+          have hmin2 : 0 ≤ min (toMs (front.when - d.now)) d.remaining := by
+            rcases Int.min_def (toMs (front.when - d.now)) d.remaining with _
+            omega
+          exact ⟨hmin2, by omega⟩
+      · have hm := foldl_applyOp_now_mono (s.body front.id)
+          { s with todos := rest0, log := .ran front.id front.when d.now rest0 :: s.log }
+        simp only at hm
+        have hb' := DBound_tick hb ((s.body front.id).foldl applyOp
+          { s with todos := rest0, log := .ran front.id front.when d.now rest0 :: s.log }).now (by omega)
+        split at h
+        · cases h; have := DBound_remaining hb' hT; exact ⟨this.2, this.1⟩
+        · split at h
+          · have htick : (d.tick ((s.body front.id).foldl applyOp
+                { s with todos := rest0, log := .ran front.id front.when d.now rest0 :: s.log }).now).now
+                = ((s.body front.id).foldl applyOp
+                { s with todos := rest0, log := .ran front.id front.when d.now rest0 :: s.log }).now := by
+              cases d <;> rfl
+            exact ih _ _ htick hb' h
+          · cases h; exact ⟨Int.le_refl _, hT⟩
+
 /-- the shipped `ToMsec` (narrowing to 32 bits, finding F6) does NOT have this property: a ToDo due
 2^31 ms ahead turns the wait into an unlimited one. -/
 theorem legacy_sleeps_past_todo :
